@@ -75,7 +75,12 @@ func c13Policies(ctx *core.Ctx) [][]spec.Op {
 		return ops
 	}
 	for i := 0; i < 3; i++ {
-		pols = append(pols, heavy(ctx.StreamRand(fmt.Sprintf("heavy-policy-%d", i))))
+		h := heavy(ctx.StreamRand(fmt.Sprintf("heavy-policy-%d", i)))
+		if i == 2 {
+			// link options stay on, URL checking is switched off again afterwards
+			h = append(h, spec.Op{K: spec.KSwitch, Names: []string{spec.SwParseable}, B: false})
+		}
+		pols = append(pols, h)
 	}
 	// every default CSS handler, data URIs, patterns, rewriter: reaches package-level state in css/handlers.go and helpers.go
 	pols = append(pols, everythingPolicy())
@@ -246,6 +251,18 @@ func c13Inputs(r *rand.Rand, env *Env, idx, nIn int) []string {
 				el := els[r.Intn(len(els))]
 				inputs[i] = fmt.Sprintf(`<%s style="%s" id="%s" title="%s">t</%s>`, el, sty, val, val, el)
 			}
+		}
+		if i%5 == 3 && idx >= 3 {
+			// forced attributes with repeated, permitted and unknown tokens in every order (whatever the
+			// sanitiser rebuilds must come out the same way every time)
+			toks := []string{"allow-forms", "allow-scripts", "allow-popups", "allow-same-origin", "allow-modals", "bogus", "ALLOW-FORMS", "allow-top-navigation"}
+			var sb []string
+			for k := 2 + r.Intn(5); k > 0; k-- {
+				sb = append(sb, toks[r.Intn(len(toks))])
+			}
+			sb = append(sb, sb[0], sb[r.Intn(len(sb))])
+			inputs[i] = fmt.Sprintf(`<iframe src="http://example.org/" sandbox="%s"></iframe><a href="http://example.org/%s" rel="x nofollow x" target="_blank" rel="y">l</a><img src="/i.png" crossorigin="use-credentials" crossorigin="x"><a href="%s">u</a>`,
+				strings.Join(sb, " "), gen.RandIdent(r, 4), gen.CanonEscape(gen.HostileURL(r)))
 		}
 		if len(inputs[i]) > 1500 {
 			inputs[i] = inputs[i][:1500]
